@@ -166,6 +166,7 @@ func Run(opt Options) []rec.Event {
 			}
 			err := sv.Exec(context.Background(), &supvmodel.ExecRequest{Domain: "runtime", Name: name, Path: "/bin/sh", Args: []string{"-c", sc},
 				Env: &map[string]string{"PATH": "/usr/bin:/bin"}, StdoutWriter: outw, StderrWriter: outw})
+			t0exec := time.Now()
 			r.Emit(name, "ExecRet", "name", name, "err", errs(err))
 			if err != nil {
 				return
@@ -221,6 +222,28 @@ func Run(opt Options) []rec.Event {
 					err := sv.Kill(context.Background(), &supvmodel.KillRequest{Domain: "runtime", Name: "ghost-" + name, Deadline: time.Now().Add(time.Second)})
 					r.Emit(name, "KillRet", "name", "ghost-"+name, "err", errs(err), "gone", true, "past", false)
 				}
+			}
+			if real && (beh == "orphan0" || beh == "fork") && !opt.Burst {
+				// Terminate delivers SIGTERM to the whole group - also when the leader has exited by then and only
+				// members are left.  Observed 150 ms after the start at the earliest (every member has its own
+				// signal dispositions by then) and 400 ms after the call (no member of these behaviours ignores SIGTERM).
+				if d := 150*time.Millisecond - time.Since(t0exec); d > 0 {
+					time.Sleep(d)
+				}
+				t0 := time.Now()
+				r.Emit(name, "TermCall", "name", name)
+				err := sv.Terminate(context.Background(), &supvmodel.TerminateRequest{Domain: "runtime", Name: name})
+				r.Emit(name, "TermRet", "name", name, "err", errs(err), "durMs", time.Since(t0).Milliseconds())
+				time.Sleep(400 * time.Millisecond)
+				membersGone := true
+				for _, f := range []string{".c1", ".c2"} {
+					if _, e := os.Stat(filepath.Join(dir, name+f)); e == nil {
+						if !gone(readPid(filepath.Join(dir, name+f))) {
+							membersGone = false
+						}
+					}
+				}
+				r.Emit(name, "TermObs", "name", name, "gone", membersGone)
 			}
 		}()
 	}
